@@ -16,7 +16,8 @@ RULE = ('reactions assembled from generated molecules (1-3 reactant molecules, 0
         'invariant under role-internal order and renumbering; SMILES (plain and mapped) reads back to the same roles/molecules; '
         'condensed graph centre atoms and every (order, p_order)/(charge, p_charge)/(radical, p_radical) equal the ground truth; '
         'contract_ions() / remove_reagents() on a reaction with warm caches against a fresh reaction with the same roles. identical sides have no centre; str(condensed graph) invariant. non-trivial = >= 1 edit and >= 2 molecules in a role; '
-        'distinct by mapped reaction string')
+        'distinct by mapped reaction string'
+        '; also: explicify_hydrogens on reactions with reagents: unique numbers per role, reagents disjoint, no spectator atom in the centre.')
 ASSUMPTIONS = ['molecules are built through the public API from plain graphs computed by the check (own component split)',
                'canonical molecule strings are used to compare role contents (their invariance is C01\'s subject; C01 gaps are skipped)']
 
@@ -382,7 +383,7 @@ def _cgr_symmetric(cgr):
     col = {n: (a.atomic_symbol, a.isotope, a.charge, a.p_charge, a.is_radical, a.p_is_radical) for n, a in cgr.atoms()}
     adj = {n: {} for n in col}
     for a, b, bond in cgr.bonds():
-        adj[a][b] = adj[b][a] = (bond.order, bond.p_order)
+        adj[a][b] = adj[b][a] = (bond.order or 0, bond.p_order or 0)  # None (no bond on that side) -> 0: sortable labels
     try:
         return bool(wl.local_swap_ok(col, adj))
     except TimeoutError:
